@@ -18,6 +18,7 @@ import AcnProofs.Lemmas.StochasticStarve
 import AcnProofs.Lemmas.StochasticEventCore
 import AcnProofs.Lemmas.StochasticLoopInst
 import AcnProofs.Lemmas.SimStochastic
+import AcnProofs.Lemmas.SimStochasticLedger
 
 namespace Acn.C19
 open Acn Acn.Stoch
@@ -542,12 +543,54 @@ theorem end_to_end_sim_properties (cfg : Sim.Cfg K) (hq : EventCore.ValidQ cfg.c
 
 end sim
 
+/-! ### the energy ledger of the stochastic run (C02's invariant on top of C19's) -/
+
+section simenergy
+variable {K : Type} [Field K] [LinearOrder K] [IsStrictOrderedRing K] [HasExp K]
+
+open Acn.EventCore Acn.Ledger in
+/-- ENERGY LEDGER of the full simulator on the stochastic network.  Over any linear ordered field,
+    for every configuration as in `end_to_end_sim`, every choice stream, early departure on or off,
+    every scheduler, after any number of iterations that raised nothing: with `occLog[τ][i]` the
+    session the stochastic network had plugged in at station `i` while period `τ` was charged
+    (written by `Sim.applyStage` from the network's occupancy),
+      * every EV's delivered energy is Σ over the periods `τ < iteration` and the stations `i` WHERE
+        IT SAT (wherever the random draws / the FIFO swaps put it, possibly nowhere: a waiting EV
+        gets nothing) of `charging_rates[i, τ] · V_i / 1000 · period / 60`, and its battery gained
+        exactly that;
+      * a station that was vacant in period `τ` has `charging_rates[i, τ] = 0`; columns not yet
+        simulated are 0; `peak` is the running maximum of the aggregate current. -/
+theorem end_to_end_sim_energy (cfg : Sim.Cfg K) (hq : ValidQ cfg.core)
+    (hst : (cfg.stations.map (·.id)).Nodup) (early : Bool) (cs : Nat → Nat)
+    (sched : Sim.View K → Except EventCore.Err (Sim.Schedule K)) (n : Nat) :
+    ∃ g r, SimSt.run cs cfg sched n (SimSt.init cfg early) = (g, r) ∧
+      (r = none →
+        g.net.2.occLog.length = g.core.iter ∧
+        (∀ id e0 e, evIn cfg.evs id = some e0 → SimSt.evOf g id = some e →
+          e.delivered - e0.delivered = sessionEnergy cfg g.net.2.rates g.net.2.occLog id g.core.iter ∧
+          e.batt.charge - e0.batt.charge = e.delivered - e0.delivered) ∧
+        (∀ τ i, τ < g.core.iter → i < cfg.stations.length → occAt g.net.2.occLog τ i = none →
+          g.net.2.rates.get i τ = 0) ∧
+        (∀ τ i, g.core.iter ≤ τ → g.net.2.rates.get i τ = 0) ∧
+        g.net.2.peak = peakUpTo g.net.2.rates cfg.stations.length g.core.iter) := by
+  obtain ⟨h0, g0⟩ := initG_inv (σ := SimSt.St K) hq heapQ_ok (net0 cfg.core early, SimSt.numOf (Sim.init cfg))
+  obtain ⟨g, r, hr, _, hI, _⟩ := runGM_specJ hq heapQ_ok (SimSt.sim_noFail cfg hq cs)
+    (SimSt.schedS_keeps cfg sched (LoopInv cfg.core)) (SimSt.applyS_keeps cfg (LoopInv cfg.core))
+    (SimSt.ledger_keepsJ cfg hst cs sched) n 0
+    (SimSt.init cfg early) h0 g0 (loopInv_init cfg.core hst early) (SimSt.ledgerJ_init cfg early) (Nat.zero_le _)
+  refine ⟨g, r, hr, fun hn => ?_⟩
+  have hL : LedgerQ cfg g.core.iter g.net.2.rates g.net.2.peak g.net.2.evs g.net.2.occLog := (hI hn).2
+  exact ⟨hL.log_len, fun id e0 e h0 he => ⟨hL.sess id e0 e h0 he, (hL.gain id e0 e h0 he).symm⟩,
+    hL.vacant, hL.future, hL.peak_eq⟩
+
+end simenergy
+
 section simex
 local instance : HasExp ℚ := ⟨fun x => x⟩
 
 /-- one station (1000 V, 60-minute periods, so 1 A for one period is 1 kWh), three overlapping
     sessions all carrying the station id "S0": `a` asks for 3 kWh and may draw 7 A, `b` leaves while it
-    is still waiting, `c` waits for `a` -/
+    is still waiting, `c` takes over from `a` -/
 def exSimCfg : Sim.Cfg ℚ :=
   { stations := [⟨"S0", .cont 0 (some 32), 1000⟩],
     evs := [{ session := "a", station := "S0", arrival := 0, departure := 4, estDeparture := 4, requested := 3,
@@ -569,21 +612,28 @@ example : EventCore.ValidQ exSimCfg.core ∧ (exSimCfg.stations.map (·.id)).Nod
   constructor <;> simp [exSimCfg, Sim.Cfg.core, Sim.sessionOf]
 
 /-- … and the run is not trivial: with early departure, `a` has its 3 kWh after period 0
-    (`fully_charged` computed: 3 - 7 ≤ 1/1000) but stays, because nobody waits; in period 1 `b` and `c`
-    arrive and queue, `a` is unplugged early and `b` (FIFO) gets the station; `b` departs at 2 and `c`
-    is swapped in; nothing is raised, the loop stops at the horizon 5 with the site empty; the energies
-    are the ones the batteries accept (7 + 7, 2, 4 + 4 + 0 kWh) -/
+    (`fully_charged` computed: 3 - 7 ≤ 1/1000) but stays, because nobody waits; in period 1 `c` and `b`
+    arrive (in the heap's order) and queue, `a` — no longer scheduled, 0 A — is unplugged early and `c`
+    (FIFO) gets the station; `b` departs at 2 from the queue (never charged); the later unplug event of
+    `a` is stale; nothing is raised, the loop stops at the horizon 5 with the site empty; the energies
+    are the ones the batteries accept (7, 0, 4 + 4 kWh) -/
 example :
     (SimSt.run (fun _ => 0) exSimCfg exSimSched 9 (SimSt.init exSimCfg true)).2 = none ∧
     (SimSt.run (fun _ => 0) exSimCfg exSimSched 9 (SimSt.init exSimCfg true)).1.core.iter = 5 ∧
-    (SimSt.run (fun _ => 0) exSimCfg exSimSched 2 (SimSt.init exSimCfg true)).1.net.1.occ "S0" = some "b" ∧
-    (SimSt.run (fun _ => 0) exSimCfg exSimSched 2 (SimSt.init exSimCfg true)).1.net.1.waiting = ["c"] ∧
+    (SimSt.run (fun _ => 0) exSimCfg exSimSched 2 (SimSt.init exSimCfg true)).1.net.1.occ "S0" = some "c" ∧
+    (SimSt.run (fun _ => 0) exSimCfg exSimSched 2 (SimSt.init exSimCfg true)).1.net.1.waiting = ["b"] ∧
     (SimSt.run (fun _ => 0) exSimCfg exSimSched 9 (SimSt.init exSimCfg true)).1.net.1.earlyUnplug = 1 ∧
-    (SimSt.run (fun _ => 0) exSimCfg exSimSched 9 (SimSt.init exSimCfg true)).1.net.1.swaps = 2 ∧
+    (SimSt.run (fun _ => 0) exSimCfg exSimSched 9 (SimSt.init exSimCfg true)).1.net.1.swaps = 1 ∧
+    (SimSt.run (fun _ => 0) exSimCfg exSimSched 9 (SimSt.init exSimCfg true)).1.net.1.neverCharged = 1 ∧
     (SimSt.run (fun _ => 0) exSimCfg exSimSched 9 (SimSt.init exSimCfg true)).1.net.2.evs.map (·.delivered)
-      = [14, 2, 8] ∧
+      = [7, 0, 8] ∧
+    (SimSt.run (fun _ => 0) exSimCfg exSimSched 9 (SimSt.init exSimCfg true)).1.net.2.pilots.rows
+      = [[16, 0, 16, 16, 0]] ∧
     (SimSt.run (fun _ => 0) exSimCfg exSimSched 9 (SimSt.init exSimCfg true)).1.net.2.rates.rows
-      = [[7, 7, 2, 4, 4]] := by
+      = [[7, 0, 4, 4, 0]] ∧
+    -- the occupancy log `end_to_end_sim_energy` sums over: `a` sat on S0 in periods 0-1, `c` in 2-3
+    (SimSt.run (fun _ => 0) exSimCfg exSimSched 9 (SimSt.init exSimCfg true)).1.net.2.occLog
+      = [[some "a"], [some "a"], [some "c"], [some "c"], [none]] := by
   decide +kernel
 
 /-- a raising scheduler stops the run in the period where it raises, with the network as it was -/
@@ -593,7 +643,7 @@ example :
         = some .schedulerFailed ∧
     (SimSt.run (fun _ => 0) exSimCfg
       (fun v => if v.iter = 1 then .error .schedulerFailed else exSimSched v) 9 (SimSt.init exSimCfg true)).1.net.1.waiting
-        = ["b", "c"] := by
+        = ["c", "b"] := by
   decide +kernel
 
 end simex
